@@ -137,7 +137,7 @@ def ax_charts(n):
 AXES = [
     ("type", [("dance-solo", ax_type("dance-solo")), ("kb7-single", ax_type("kb7-single")), ("dance-double", ax_type("dance-double")), ("dance-threepanel", ax_type("dance-threepanel")), ("pump-single", ax_type("pump-single"))]),
     ("rows", [(str(r), ax_rows(r)) for r in (8, 12, 16, 20, 24, 28, 32, 48, 64, 96, 128, 192, 384)]),
-    ("offset", [("-0.5", ax_offset("-0.500")), ("1.234", ax_offset("1.234"))]),
+    ("offset", [("-0.5", ax_offset("-0.500")), ("1.234", ax_offset("1.234")), ("-0.009463", ax_offset("-0.009463")), ("0.118750", ax_offset("0.118750"))]),
     (
         "bpms",
         [
